@@ -404,3 +404,17 @@ def describe(config):
             s += ':' + c['field_processor']
         out[b] = s
     return out
+
+
+_SHARED_CONFIG = {}
+
+
+def same_object(config, k):
+    """every third call hands the configuration over in ONE long-lived dict object whose contents are replaced from call
+    to call (an application that edits its configuration in place): equal contents, but the identity of the object says
+    nothing about them"""
+    if k % 3:
+        return config
+    _SHARED_CONFIG.clear()
+    _SHARED_CONFIG.update(config)
+    return _SHARED_CONFIG
